@@ -126,6 +126,7 @@ type Enc struct {
 	structs    map[string]*structInfo
 	compSort   map[string]string
 	nfresh     int
+	subIdx     map[string]int
 	memCounter int
 	qual       types.Qualifier
 	boxed      map[string]bool
@@ -134,7 +135,7 @@ type Enc struct {
 }
 
 func newEnc() *Enc {
-	e := &Enc{tagTy: map[string]types.Type{}, declared: map[string]bool{}, tags: map[string]int{}, strlits: map[string]string{}, structs: map[string]*structInfo{},
+	e := &Enc{subIdx: map[string]int{}, tagTy: map[string]types.Type{}, declared: map[string]bool{}, tags: map[string]int{}, strlits: map[string]string{}, structs: map[string]*structInfo{},
 		compSort: map[string]string{}, boxed: map[string]bool{}, implFacts: map[string]bool{}, assumption: map[string]bool{}}
 	e.qual = func(p *types.Package) string { return p.Name() }
 	return e
@@ -340,9 +341,23 @@ func (e *Enc) zero(t types.Type) Term {
 		}
 		return app(si.ctor, args...)
 	case *types.Array:
-		return fmt.Sprintf("((as const %s) %s)", e.sortOf(t), e.zero(u.Elem()))
+		return e.constArray("Int", u.Elem())
 	}
 	panic(unsupported{fmt.Sprintf("zero of %s", t)})
+}
+
+// constArray: the array (indexed by sort idx) that holds the zero value of elem everywhere. cvc5 only accepts
+// literal values in (as const ...), so other element sorts get a named array with a defining axiom.
+func (e *Enc) constArray(idx string, elem types.Type) Term {
+	z := e.zero(elem)
+	es := e.sortOf(elem)
+	switch z {
+	case "0", "false", "0.0", "anil", "(mkslice 0 0 0 0)":
+		return fmt.Sprintf("((as const (Array %s %s)) %s)", idx, es, z)
+	}
+	n := sym("zarr$" + idx + "$" + es)
+	e.decl("zarr:"+n, fmt.Sprintf("(declare-const %s (Array %s %s))\n(assert (forall ((j %s)) (! (= (select %s j) %s) :pattern ((select %s j)))))", n, idx, es, idx, n, z, n))
+	return n
 }
 
 // box/unbox for values whose sort has no direct Any constructor.
